@@ -176,6 +176,30 @@ NetPerformAction.havoc = _netpa_havoc
 NetPerformAction.ensures = _netpa_ensures_callsite(NetPerformAction.ensures)
 
 
+def obs_object_ok(sig, obs):
+    """the observation object carries a float32 tensor of the advertised 2-D shape (N+1, W)"""
+    L = sig.layout()
+    t = obs.fields.get("tensor") if isinstance(obs, Obj) else None
+    if not (isinstance(t, NpArr) and t.row is None and t.ndim == 2):
+        return z3.BoolVal(False)
+    sh = t.cell.shape
+    return z3.And(z3.BoolVal(t.cell.dtype == "float32"), ival(sh[0]) == ival(sig.N) + 1, ival(sh[1]) == L.W)
+
+
+def obs_array_ok(sig, arr, flat):
+    """the array handed to the agent: float32, shape (N+1, W) or ((N+1)*W,) as the flat_obs switch says"""
+    L = sig.layout()
+    if not isinstance(arr, NpArr) or arr.row is not None:
+        return z3.BoolVal(False)
+    sh = arr.cell.shape
+    f32 = z3.BoolVal(arr.cell.dtype == "float32")
+    if arr.ndim == 2:
+        return z3.And(f32, z3.Not(flat), ival(sh[0]) == ival(sig.N) + 1, ival(sh[1]) == L.W)
+    if arr.ndim == 1:
+        return z3.And(f32, flat, ival(sh[0]) == (ival(sig.N) + 1) * L.W)
+    return z3.BoolVal(False)
+
+
 # ---------------------------------------------------------------------------- generative_step
 
 @contract
@@ -254,6 +278,8 @@ class GenerativeStep(Contract):
                 out.append(("C12.info-is-result", z3.BoolVal(False)))
         out.append(("C06.done", bval(done) == GOAL(T1)))
         out.append(("C10.five-tuple", z3.BoolVal(isinstance(S.result, tuple) and len(S.result) == 5)))
+        if not getattr(S, "callsite", False):
+            out.append(("C10.observation-float32-of-advertised-shape", obs_object_ok(sig, obs)))
         # functional characterisation for callers (makes bounded counterexamples of step() realisable):
         # the next state is the network's and the terminal flag is the goal predicate *by definition*
         from .c_network import net_spec, ss_rows, ur_rows
@@ -362,6 +388,7 @@ class EnvStep(Contract):
         else:
             out.append(("C06.limit-flag", z3.Not(bval(limit_flag)) if not isinstance(limit_flag, bool)
                         else z3.BoolVal(limit_flag is False)))
+        out.append(("C10.observation-float32-of-advertised-shape", obs_array_ok(sig, obs_arr, bval(env.fields["flat_obs"]))))
         gs = I.ext_state.get("gs_result")
         if gs is None:
             out.append(("C13.agrees", z3.BoolVal(False)))
@@ -427,6 +454,8 @@ class EnvReset(Contract):
         out = [("C10.two-tuple", z3.BoolVal(isinstance(res, tuple) and len(res) == 2 and isinstance(res[1], PyDict)
                                             and not res[1].d))]
         out.append(("C04.steps-zeroed", ival(env.fields["steps"]) == 0))
+        if isinstance(res, tuple) and len(res) == 2:
+            out.append(("C10.observation-float32-of-advertised-shape", obs_array_ok(sig, res[0], bval(env.fields["flat_obs"]))))
         T0 = S.old["env"]["current_T"]
         T1 = tensor_of(env.fields["current_state"]).content
         v1 = V.View(sig, T1)
